@@ -86,6 +86,23 @@ def generate(rng, tier, idx):
         # error has to surface, never the digests of the prefix
         sc['read_fault'] = rng.choice([2, 2, 3, 4, 6])
         sc['rehash'] = False
+    if api == 'hash_file' and rng.random() < 0.3:
+        # the reader handed to hash_file() is a DECOMPRESSING stream over a file on disk (what gemato's own
+        # open_potentially_compressed_path returns): the digests are those of what the stream delivers, not of the bytes
+        # behind its descriptor; some of these files are larger than 1 MiB on disk
+        sc['stream'] = rng.choice(['gz', 'gz', 'bz2', 'xz', 'lzma'])
+        sc['fname'] = 'f.' + sc['stream']
+        sc.pop('read_fault', None)
+        sc.pop('fstat_skew', None)
+        sc['zero_size'] = False
+        if rng.random() < 0.3:
+            n = rng.choice([1048576 + 4096, 1100000, 1300000])
+            sc['len'] = n
+            sc['content'] = {'prng': [rng.getrandbits(32), n]}
+            sc['hint'] = rng.choice(['true', 'zero', 'zero', 'larger'])
+            sc['stream'] = rng.choice(['gz', 'gz', 'bz2'])
+            sc['fname'] = 'f.' + sc['stream']
+            sc['hashlib'] = sc['hashlib'][:2]
     if n > 70000 and sc['chunks'] in ('tiny', 1, 3):
         sc['chunks'] = 'mixed'
     return sc
@@ -164,7 +181,14 @@ def execute(sc):
             'one': 1}[sc['hint']]
     with World(sc) as w:
         fname = sc.get('fname', 'f')
-        w.put({'p': fname, 'k': 'file', **sc['content']})
+        if sc.get('stream'):
+            import base64, bz2, gzip, lzma
+            comp_ = {'gz': lambda b: gzip.compress(b, 1, mtime=0), 'bz2': lambda b: bz2.compress(b, 1),
+                     'xz': lambda b: lzma.compress(b, format=lzma.FORMAT_XZ, preset=0),
+                     'lzma': lambda b: lzma.compress(b, format=lzma.FORMAT_ALONE, preset=0)}[sc['stream']]
+            w.put({'p': fname, 'k': 'file', 'b64': base64.b64encode(comp_(content)).decode()})
+        else:
+            w.put({'p': fname, 'k': 'file', **sc['content']})
         path = w.path(fname)
         skew = sc.get('fstat_skew')
         seam = Seam(w.root, order_key=sc['order_key'], read_chunks=sc['chunks'],
@@ -175,14 +199,20 @@ def execute(sc):
         with seam:
             if api in ('hash_file', 'hash_file_read1'):
                 names = list(sc['hashlib']) + ['__size__']
-                if api == 'hash_file':
+                if api == 'hash_file' and sc.get('stream'):
+                    from gemato.compression import open_potentially_compressed_path
+                    fstack = open_potentially_compressed_path(path, 'rb')
+                    f = fstack.__enter__()
+                elif api == 'hash_file':
                     f = open(path, 'rb')
                 else:
                     f = Read1Reader(content, sc['order_key'])
                 try:
                     r = call(gemato.hash.hash_file, f, names, _apparent_size=hint)
                 finally:
-                    if api == 'hash_file':
+                    if api == 'hash_file' and sc.get('stream'):
+                        fstack.__exit__(None, None, None)
+                    elif api == 'hash_file':
                         f.close()
                     else:
                         extra_short = f.short
@@ -350,6 +380,6 @@ def execute(sc):
     nontrivial = (seam.stats.get('short_reads', 0) + extra_short > 0 or n in THRESH
                   or sc['hint'] != 'true' or api == 'unsupported')
     res = mk_result([seam], violations, nontrivial, outcome={'api': api, 'n': n, 'viol': len(violations)}, ops=1,
-                    counters={'api.' + api: 1, 'len_at_threshold': int(n in THRESH),
+                    counters={'api.' + api + ('-decompressing-stream' if sc.get('stream') else ''): 1, 'len_at_threshold': int(n in THRESH),
                               'read1_short': extra_short})
     return res
